@@ -425,6 +425,8 @@ class Gen:
             # characters that mean something elsewhere on a command line are ordinary characters inside a value word: blank, tab,
             # dash, the control characters ! ( ), list separators, quotes, backslash, bytes above 127 (never as first character)
             s = s[0] + "".join(r.choice(" \t-!(),;:+/|'\"\\#@\xe4\xff") if r.random() < 0.5 else ch for ch in s[1:])
+            if r.random() < 0.3:
+                s = s[:-1] + r.choice(" \t ")          # a value that ends with a blank / tab (the last thing on a file line when it is the last word)
         if n >= 2 and r.random() < 0.12:
             # an '=' inside the value ("--key=a=b": the key ends at the FIRST '=')
             k = r.randint(1, n - 1)
